@@ -21,6 +21,7 @@ type routerKnobs struct {
 	repeat     bool // every request issued twice
 	interleave bool // registrations, Headers() and requests interleaved
 	autoHeadPct int // chance that the session configures AutoHead (and registers through the verb methods Get, Post, …)
+	groups     bool // a share of the sessions declares its routes inside a random tree of groups (GRP … END)
 	sessions   [2]int
 	small      [2]int // exhaustive small scope: max routes per set, max path segments (0 = off), quick / thorough pairs below
 	smallT     [2]int
@@ -72,7 +73,7 @@ func init() {
 		sessions: [2]int{1500, 40000}})
 	gens["C10"] = routerGen(routerKnobs{prof: profStatic, routesMax: 7, reqs: 14, hdrPct: 30, reHdr: true, treq: true, interleave: true, autoHeadPct: 35,
 		sessions: [2]int{1500, 40000}})
-	gens["C12"] = routerGen(routerKnobs{prof: profBinds, routesMax: 4, reqs: 6, hdrPct: 0, urlOps: 10, treq: false, autoHeadPct: 10,
+	gens["C12"] = routerGen(routerKnobs{prof: profBinds, routesMax: 4, reqs: 6, hdrPct: 0, urlOps: 10, treq: false, autoHeadPct: 10, groups: true,
 		sessions: [2]int{1500, 40000}})
 }
 
@@ -462,7 +463,129 @@ func deepFamilySession(r *rand.Rand, k routerKnobs, emit Emit) {
 	}
 }
 
+// groupedSession: the routes are declared inside a random tree of groups — groups opened and closed in any order up to
+// three deep (a closed group followed by further declarations of the enclosing one, siblings, a group or a route with
+// the path ""), one to three segments of any kind per group path and per route, requests and URL building interleaved
+// with the declarations (while groups are still open) and afterwards.  Every route is named (`r<hid>`) by the executor,
+// so every dispatched request rebuilds its own URL; the model registers the concatenated texts.
+func groupedSession(r *rand.Rand, k routerKnobs, emit Emit) {
+	emit("NEW router")
+	type frame struct {
+		segs []gSeg
+		used map[string]bool
+	}
+	copyUsed := func(m map[string]bool) map[string]bool {
+		o := map[string]bool{}
+		for k, v := range m {
+			o[k] = v
+		}
+		return o
+	}
+	stack := []frame{{used: map[string]bool{}}}
+	var routes []gRoute
+	var hids []int
+	emitReq := func() {
+		method := pick(r, reqMethods)
+		path := randomSmallPath(r)
+		if len(routes) > 0 && r.Intn(8) != 0 {
+			rt := routes[r.Intn(len(routes))]
+			if r.Intn(4) == 0 {
+				path = mutatePath(r, rt.instance(r))
+			} else {
+				path = "/" + strings.Join(rt.instance(r), "/")
+			}
+		}
+		emit("REQ %s %s", hx(method), hx(path))
+	}
+	vals := []string{"1", "a", "", "{x}", "a/b", "x", "%41", "é"}
+	emitURL := func() {
+		if len(hids) == 0 {
+			return
+		}
+		parts := []string{"URL", hx(fmt.Sprintf("r%d", hids[r.Intn(len(hids))]))}
+		for p := r.Intn(4); p > 0; p-- {
+			parts = append(parts, hx(pick(r, bindNames)), hx(pick(r, vals)))
+		}
+		if r.Intn(2) == 0 {
+			parts = append(parts, hx("withOptional"), hx(pick(r, []string{"true", "false"})))
+		}
+		emit("%s", strings.Join(parts, " "))
+	}
+	id := 0
+	steps := 4 + r.Intn(8)
+	for st := 0; st < steps; st++ {
+		top := stack[len(stack)-1]
+		switch c := r.Intn(10); {
+		case c < 3 && len(stack) <= 3:
+			used := copyUsed(top.used)
+			n := 1 + r.Intn(2)
+			if r.Intn(8) == 0 {
+				n = 0 // Group("", …)
+			}
+			segs := append([]gSeg(nil), top.segs...)
+			var own gRoute
+			for i := 0; i < n; i++ {
+				sg := genSeg(r, used, k.prof, false)
+				sg.optional = false
+				own.segs = append(own.segs, sg)
+			}
+			emit("GRP %s", hx(own.text()))
+			stack = append(stack, frame{segs: append(segs, own.segs...), used: used})
+		case c < 5 && len(stack) > 1:
+			emit("END")
+			stack = stack[:len(stack)-1]
+		default:
+			used := copyUsed(top.used)
+			n := 1 + r.Intn(3)
+			if len(stack) > 1 && r.Intn(10) == 0 {
+				n = 0 // the route of the group's own path
+			}
+			var own gRoute
+			for i := 0; i < n; i++ {
+				sg := genSeg(r, used, k.prof, i == n-1)
+				sg.optional = i == n-1 && r.Intn(100) < k.prof.optionalPct
+				own.segs = append(own.segs, sg)
+			}
+			full := gRoute{segs: append(append([]gSeg(nil), top.segs...), own.segs...)}
+			ms := methodsFor(r)
+			if r.Intn(5) == 0 {
+				for _, v := range []string{"GET", "POST", "PUT", "HEAD"} {
+					if ms == v {
+						ms = "combo:" + ms
+					}
+				}
+			}
+			emit("ADD %d %s %s %s", id, ms, hx(own.text()), wireOfText(full.text()))
+			if len(full.segs) > 0 {
+				routes = append(routes, full)
+			}
+			hids = append(hids, id)
+			id++
+			switch r.Intn(4) {
+			case 0:
+				emitReq()
+			case 1:
+				emitURL()
+			}
+		}
+	}
+	for len(stack) > 1 && r.Intn(12) != 0 {
+		emit("END")
+		stack = stack[:len(stack)-1]
+	}
+	for j := 0; j < k.reqs+4; j++ {
+		emitReq()
+	}
+	for j := 0; j < k.urlOps/2; j++ {
+		emitURL()
+	}
+}
+
 func routerSession1(r *rand.Rand, k routerKnobs, emit Emit) {
+	if k.groups && r.Intn(4) == 0 {
+		groupedSession(r, k, emit)
+		return
+	}
 	if k.urlOps == 0 && r.Intn(25) == 0 {
 		wideSession(r, k, emit)
 		return
